@@ -76,6 +76,19 @@ def invalid_ops(g: gen.ProgGen, rng, seq_duration: int | None = None, ch_ends: d
         mn, clk, mx = sp.get("min_duration", 1), sp.get("clock_period", 1), sp.get("max_duration")
         d_ok = gen.gen_duration(rng, sp)
         usable = (not c["local"] or c["targets"]) and not c.get("slm_wait")
+        if c.get("slm_wait"):
+            # the DMM reserved for a pending SLM mask takes no instruction before the first global pulse; in an align
+            # it may be listed after channels that would have to be delayed
+            others = [m for m in names if m != n and (not g.chans[m]["local"] or g.chans[m]["targets"])
+                      and not g.chans[m].get("slm_wait")]
+            out.append(("slm-dmm-waiting", {"op": "delay", "duration": d_ok, "ch": n}))
+            out.append(("slm-dmm-waiting", {"op": "add_dmm_detuning", "wf": {"k": "const", "d": d_ok, "v": -1.0}, "ch": n}))
+            if others:
+                rng.shuffle(others)
+                out.append(("slm-dmm-waiting-align", {"op": "align", "chs": [*others, n]}))
+                out.append(("slm-dmm-waiting-align", {"op": "align", "chs": [n, *others]}))
+                if len(others) >= 2:
+                    out.append(("slm-dmm-waiting-align", {"op": "align", "chs": [others[0], n, *others[1:]], "at_rest": False}))
         if c["dmm"]:
             out.append(("add-on-dmm", {"op": "add", "pulse": _const_pulse(d_ok, 0.0, -1.0), "ch": n}))
             if usable:
